@@ -13,6 +13,9 @@ Nothing here looks at what the helper computes.
 import copy, json, os
 
 VOCAB = os.path.join(os.path.dirname(os.path.abspath(__file__)), 'baseline_fns.json')
+# one-line helpers of the reviewed tree that the rules look through: whether a maintainer keeps them as functions or
+# writes their bodies in place is the same program to every rule
+TRANSPARENT_HELPERS = {'gm_sm4::el', 'gm_sm4::el_prime'}
 MAX_BLOCKS = 4000
 
 
@@ -147,7 +150,7 @@ def inline_new_helpers(F, vocab=None, rounds=6):
     done = {}
     if not vocab:
         return done
-    new = {n for n in F.fns if n not in vocab and '{closure' not in n}
+    new = {n for n in F.fns if (n not in vocab and '{closure' not in n) or n in TRANSPARENT_HELPERS}
     if not new:
         return done
     originals = {n: copy.deepcopy(F.fns[n]) for n in new}     # inline the helper as written, not a partially inlined copy
